@@ -28,6 +28,7 @@ type Val struct {
 	Own      bool // has a classification of its own (redactable, SafeFormatter, SafeMessager, wrappers)
 	Addr     bool // rendering contains addresses
 	Passive  bool // no user methods
+	WrapOnly bool // own classification only through Safe()/Unsafe() wrappers and SafeValue types (no redactable, SafeFormatter, SafeMessager inside)
 }
 
 // secrets
@@ -239,6 +240,31 @@ func universe() []Val {
 	}))
 	add(sv("[]byte quotes/NUL", true, func(v int) interface{} { return []byte([2]string{"b\"\x00`", "B\"\x00`"}[v]) }))
 	add(sv("self-referential pointer", true, func(v int) interface{} { n := &selfRef{V: secInt[v]}; n.Next = n; return n }))
+	// --- map key kinds with extreme values (sorted rendering)
+	add(sv("map[uint64] around 2^63", true, func(v int) interface{} {
+		return map[uint64]string{1: secPlain[v], 1 << 63: secStr[v], 1<<64 - 1: "z", 1<<63 - 1: "y"}
+	}))
+	add(sv("map[int64] extremes", true, func(v int) interface{} {
+		return map[int64]int{-1 << 63: 1 + v, -1: 2, 0: 3, 1<<63 - 1: secInt[v]}
+	}))
+	add(sv("map[uint] and uintptr keys", true, func(v int) interface{} {
+		return []interface{}{map[uint]int{^uint(0): 1 + v, 2: 2}, map[uintptr]bool{^uintptr(0): secB[v], 1: true}}
+	}))
+	add(sv("map[uint8]/[int8]/[bool] keys", true, func(v int) interface{} {
+		return []interface{}{map[uint8]int{255: 1 + v, 0: 2, 128: 3}, map[int8]int{-128: 1, 127: 2 + v, 0: 3}, map[bool]string{true: secPlain[v], false: "f"}}
+	}))
+	add(sv("map[float32]/[complex128] keys", true, func(v int) interface{} {
+		return []interface{}{map[float32]int{-1.5: 1 + v, 1e30: 2, 0: 3}, map[complex128]int{1 + 2i: 1, 1 - 2i: 2 + v, -3: 3}}
+	}))
+	add(sv("map[[2]int]/[struct] keys", true, func(v int) interface{} {
+		return []interface{}{map[[2]int]int{{2, 1}: 1 + v, {1, 9}: 2, {1, -1}: 3}, map[structInner]string{{2, 1}: secPlain[v], {1, 5}: "b"}}
+	}))
+	add(sv("map[interface{}] mixed kinds", true, func(v int) interface{} {
+		return map[interface{}]int{uint64(1 << 63): 1 + v, uint64(3): 2, "s": 3, 2.5: 4, int8(-1): 5, nil: 6, [1]int{1}: 7}
+	}))
+	add(sv("map[string] many keys incl. empty", true, func(v int) interface{} {
+		return map[string]int{"": 1 + v, "a": 2, "B": 3, "é": 4, "\n": 5, "aa": 6, mStart: 7}
+	}))
 	// --- further shapes, kinds, lengths
 	long0, long1 := strings.Repeat("l", 61)+mStart+"xyz\n"+strings.Repeat("m", 40), strings.Repeat("L", 61)+mEnd+"XYZ\n"+strings.Repeat("M", 40)
 	add(sv("string>64 bytes", true, func(v int) interface{} { return [2]string{long0, long1}[v] }))
@@ -356,21 +382,24 @@ func universe() []Val {
 	add(sv("reflect(safeT)", true, func(v int) interface{} { return reflect.ValueOf(safeT("rv")) }))
 	// --- redact-specific rendering (not fmt-comparable)
 	o := func(name string, mk func(v int) interface{}) Val { return Val{Name: name, Mk: mk, Own: true} }
-	add(o("Safe(str)", func(v int) interface{} { return redact.Safe("pub" + mEnd + "\nlic") }))
-	add(o("Safe(int)", func(v int) interface{} { return redact.Safe(-77) }))
-	add(o("Safe([]byte)", func(v int) interface{} { return redact.Safe(sharedPubBytes) }))
-	add(o("Safe(struct)", func(v int) interface{} { return redact.Safe(structT{1, "p", 2.5}) }))
-	add(o("Safe(Stringer)", func(v int) interface{} { return redact.Safe(strT{"pubstr"}) }))
-	add(o("Safe(err)", func(v int) interface{} { return redact.Safe(errT{"puberr"}) }))
-	add(o("Safe(nil)", func(v int) interface{} { return redact.Safe(nil) }))
-	add(o("Unsafe(safeT)", func(v int) interface{} { return redact.Unsafe(safeT(secPlain[v])) }))
-	add(o("Unsafe(Safe(str))", func(v int) interface{} { return redact.Unsafe(redact.Safe(secStr[v])) }))
-	add(o("Safe(Unsafe(str))", func(v int) interface{} { return redact.Safe(redact.Unsafe("pub")) }))
+	ow := func(name string, mk func(v int) interface{}) Val {
+		return Val{Name: name, Mk: mk, Own: true, WrapOnly: true}
+	}
+	add(ow("Safe(str)", func(v int) interface{} { return redact.Safe("pub" + mEnd + "\nlic") }))
+	add(ow("Safe(int)", func(v int) interface{} { return redact.Safe(-77) }))
+	add(ow("Safe([]byte)", func(v int) interface{} { return redact.Safe(sharedPubBytes) }))
+	add(ow("Safe(struct)", func(v int) interface{} { return redact.Safe(structT{1, "p", 2.5}) }))
+	add(ow("Safe(Stringer)", func(v int) interface{} { return redact.Safe(strT{"pubstr"}) }))
+	add(ow("Safe(err)", func(v int) interface{} { return redact.Safe(errT{"puberr"}) }))
+	add(ow("Safe(nil)", func(v int) interface{} { return redact.Safe(nil) }))
+	add(ow("Unsafe(safeT)", func(v int) interface{} { return redact.Unsafe(safeT(secPlain[v])) }))
+	add(ow("Unsafe(Safe(str))", func(v int) interface{} { return redact.Unsafe(redact.Safe(secStr[v])) }))
+	add(ow("Safe(Unsafe(str))", func(v int) interface{} { return redact.Safe(redact.Unsafe("pub")) }))
 	add(o("Unsafe(Redactable)", func(v int) interface{} {
 		return redact.Unsafe(redact.RedactableString(secPlain[v] + mStart + secPlain[1-v] + mEnd))
 	}))
 	add(o("Unsafe(SafeFormatter)", func(v int) interface{} { return redact.Unsafe(safeFmtT{secPlain[v], secStr[v]}) }))
-	add(o("Unsafe(nil)", func(v int) interface{} { return redact.Unsafe(nil) }))
+	add(ow("Unsafe(nil)", func(v int) interface{} { return redact.Unsafe(nil) }))
 	add(o("RedactableString", func(v int) interface{} {
 		return redact.RedactableString("pub " + mStart + string(Esc([]byte(secStr[v]))) + mEnd + "\n" + mStart + secPlain[v] + mEnd + " end")
 	}))
@@ -417,13 +446,19 @@ func universe() []Val {
 			panic("mid " + secPlain[v])
 		})
 	}))
+	add(ow("[]iface{Safe,Unsafe(x),plain}", func(v int) interface{} {
+		return []interface{}{redact.Safe("p"), redact.Unsafe(secPlain[v]), secStr[v], redact.Unsafe(safeT("q"))}
+	}))
+	add(ow("struct{Unsafe field}", func(v int) interface{} {
+		return struct{ A, B interface{} }{redact.Unsafe(secInt[v]), safeT("pub")}
+	}))
 	add(o("[]iface{Safe,unsafe,Redactable}", func(v int) interface{} {
 		return []interface{}{redact.Safe("p"), secStr[v], redact.RedactableString(mStart + secPlain[v] + mEnd)}
 	}))
-	add(o("struct{Safe;Unsafe}", func(v int) interface{} {
+	add(ow("struct{Safe;Unsafe}", func(v int) interface{} {
 		return struct{ A, B, c interface{} }{redact.Safe("p"), redact.Unsafe(safeT(secPlain[v])), redact.Safe("pubc")}
 	}))
-	add(o("map[string]Safe", func(v int) interface{} {
+	add(ow("map[string]Safe", func(v int) interface{} {
 		return map[string]interface{}{secKeyA[v]: redact.Safe("p1"), secKeyB[v]: safeT("p2")}
 	}))
 	return u
